@@ -185,6 +185,8 @@ def required_cells(tier):
         "api:pttebd": 10, "e2e:m<=30": 500, "e2e:m>30": 4,
         "e2e:quotient-below-integer": 20,
         "pttempo-refuses-n<2": 4, "tebd:query-between-computes": 2,
+        "tebd:caller-parameters-reused-afterwards": 2,
+        "continued-after-reading-times": 5,
         "num_steps:0": 20, "num_steps:>0": 20,
         "with-trivial-process-tensor": 20,
         "container:add-shuffled": 2, "container:constructor-unsorted": 2,
@@ -634,18 +636,33 @@ def _e2e_point(book, dt, start, end, n, m, tag, apis, shortcut):
            "expected_steps": n, "float_quotient": (end - start) / dt}
     worst = 0.0
     tdsys = oqupy.TimeDependentSystem(model.hamiltonian)
+    cont = bool(n >= 2 and m % 3 == 1)
+    t_mid = float(exact_time(start, dt, n // 2)) + 0.3 * dt
     if "tempo" in apis:
         if shortcut:
             dyn = oqupy.tempo_compute(tdsys, bath, RHO0, start, end, par,
                                       progress_type="silent")
+        elif cont:
+            # the interval reached in two calls, with a look at the times
+            # recorded so far in between
+            tmp = oqupy.Tempo(tdsys, bath, par, RHO0, start)
+            d1 = tmp.compute(t_mid, progress_type="silent")
+            if len(d1.times) != n // 2 + 1 or len(d1.states) != n // 2 + 1:
+                book.violation(
+                    f"tempo: compute({t_mid!r}) leaves {len(d1.times)} "
+                    f"times / {len(d1.states)} states, expected "
+                    f"{n // 2 + 1}", "length:tempo", dict(det, mid=t_mid))
+            dyn = tmp.compute(end, progress_type="silent")
+            book.cell("continued-after-reading-times")
         else:
             dyn = oqupy.Tempo(tdsys, bath, par, RHO0, start).compute(
                 end, progress_type="silent")
         book.cell("api:tempo")
         steps = _check_labels(book, "tempo", dyn.times, start, dt, n, True,
                               det)
-        if len(dyn) != len(dyn.times):
-            book.violation("tempo: len(dynamics) != len(times)",
+        if len(dyn) != len(dyn.times) or len(dyn.states) != len(dyn.times):
+            book.violation("tempo: len(dynamics), number of states and "
+                           "number of times differ",
                            "length:tempo", dict(det, len=len(dyn)))
         worst = max(worst, _check_states(book, "tempo", model, dyn.states,
                                          steps, start, dt, det))
@@ -657,6 +674,16 @@ def _e2e_point(book, dt, start, end, n, m, tag, apis, shortcut):
     if "meanfield" in apis:
         mft = oqupy.MeanFieldTempo(mfs, [bath], par, [RHO0], FIELD0,
                                    start_time=start)
+        if cont:
+            m1 = mft.compute(t_mid, progress_type="silent")
+            seen = [len(m1.times), len(m1.fields),
+                    len(m1.system_dynamics[0].times)]
+            if seen != [n // 2 + 1] * 3:
+                book.violation(
+                    f"meanfield: compute({t_mid!r}) leaves {seen} times / "
+                    f"fields / system times, expected {n // 2 + 1}",
+                    "length:meanfield", dict(det, mid=t_mid))
+            book.cell("continued-after-reading-times")
         md = mft.compute(end, progress_type="silent")
         book.cell("api:meanfield")
         steps = _check_labels(book, "meanfield", md.times, start, dt, n,
@@ -921,16 +948,31 @@ def run_tebd(case):
                 _bath(), start, start + (n + 0.5) * dt, _params(dt),
                 progress_type="silent")
             book.cell("tebd:with-process-tensor")
+        prm = oqupy.PtTebdParameters(dt=dt, epsrel=TEBD_EPSREL, order=2)
         tebd = oqupy.PtTebd(
-            oqupy.AugmentedMPS([RHO0, RHO1]), chain, pts,
-            oqupy.PtTebdParameters(dt=dt, epsrel=TEBD_EPSREL, order=2),
+            oqupy.AugmentedMPS([RHO0, RHO1]), chain, pts, prm,
             start_time=start, start_step=start_step, dynamics_sites=[0, 1])
+        if idx % 5 in (2, 3):
+            # the caller goes on to its next configuration with the same
+            # (mutable) parameter object: the grid of this computation is
+            # the one it was set up with
+            prm.dt = 2.5 * dt
+            book.cell("tebd:caller-parameters-reused-afterwards")
         if idx % 2 and n >= 2:
-            # reached in two calls with a look at the current chain state in
-            # between (must not shift what is recorded under which label)
-            tebd.compute(start_step + n // 2, progress_type="silent")
+            # reached in two calls with a look at the current chain state and
+            # at the times recorded so far in between (must not shift what
+            # is recorded under which label)
+            r1 = tebd.compute(start_step + n // 2, progress_type="silent")
             tebd.get_current_density_matrix(idx % 2)
             tebd.get_current_density_matrix((0, 1))
+            seen = [len(r1["dynamics"][s_].times) for s_ in (0, 1)]
+            if seen != [n // 2 + 1] * 2:
+                book.violation(
+                    f"pttebd: after the first {n // 2} steps the site "
+                    f"dynamics show {seen} times", "length:pttebd",
+                    {"dt": dt, "start": start, "steps": n})
+            if idx % 5 == 3:
+                prm.dt = 0.4 * dt
             book.cell("tebd:query-between-computes")
         res = tebd.compute(start_step + n, progress_type="silent")
         book.cell("api:pttebd")
@@ -962,6 +1004,11 @@ def run_tebd(case):
             dyn = res["dynamics"][site]
             st2 = _check_labels(book, "pttebd", dyn.times, start, dt, n,
                                 True, det)
+            if len(dyn.times) != len(dyn.states) or len(dyn) != len(dyn.times):
+                book.violation(
+                    f"pttebd: site {site} dynamics has {len(dyn.times)} "
+                    f"times, {len(dyn.states)} states, len {len(dyn)}",
+                    "length:pttebd", dict(det, site=site))
             for st, k in zip(dyn.states, st2):
                 tau = float(exact_time(0.0, dt, k))
                 dev = float(np.abs(st - site_state(site, tau)).max())
